@@ -39,6 +39,12 @@ type Case struct {
 
 func ptr[T any](v T) *T { return &v }
 
+// oneIn is true with probability about 1/n (rapid biases integer draws towards the bounds, so
+// the event is a middle value).
+func oneIn(t *rapid.T, l string, n int) bool {
+	return rapid.IntRange(0, n-1).Draw(t, l) == n/2
+}
+
 // ---------- route ----------
 
 var (
@@ -74,7 +80,7 @@ func gHeaders(t *rapid.T, l string, pool []string, min, max int) []gw.HTTPHeader
 		}
 		seen[strings.ToLower(name)] = true
 		h := gw.HTTPHeaderMatch{Name: gw.HTTPHeaderName(name)}
-		if rapid.IntRange(0, 3).Draw(t, l+"-type") == 0 {
+		if oneIn(t, l+"-type", 4) {
 			h.Type, h.Value = ptr(gw.HeaderMatchRegularExpression), "a.*"
 		} else {
 			h.Type, h.Value = ptr(gw.HeaderMatchExact), rapid.SampledFrom([]string{"true", "a"}).Draw(t, l+"-val")
@@ -95,7 +101,7 @@ func gQuery(t *rapid.T, l string, min, max int) []gw.HTTPQueryParamMatch {
 		}
 		seen[name] = true
 		q := gw.HTTPQueryParamMatch{Name: gw.HTTPHeaderName(name)}
-		if rapid.IntRange(0, 3).Draw(t, l+"-type") == 0 {
+		if oneIn(t, l+"-type", 4) {
 			q.Type, q.Value = ptr(gw.QueryParamMatchRegularExpression), "b.*"
 		} else {
 			q.Type, q.Value = ptr(gw.QueryParamMatchExact), rapid.SampledFrom([]string{"1", "beta"}).Draw(t, l+"-val")
@@ -107,10 +113,10 @@ func gQuery(t *rapid.T, l string, min, max int) []gw.HTTPQueryParamMatch {
 
 func gRouteMatch(t *rapid.T, l string) gw.HTTPRouteMatch {
 	m := gw.HTTPRouteMatch{Path: gPath(t, l+"-path", true)}
-	if rapid.IntRange(0, 2).Draw(t, l+"-hashdr") == 0 {
+	if oneIn(t, l+"-hashdr", 3) {
 		m.Headers = gHeaders(t, l+"-hdr", routeHdrNames, 1, 2)
 	}
-	if rapid.IntRange(0, 3).Draw(t, l+"-hasq") == 0 {
+	if oneIn(t, l+"-hasq", 4) {
 		m.QueryParams = gQuery(t, l+"-q", 1, 2)
 	}
 	switch rapid.IntRange(0, 5).Draw(t, l+"-method") {
@@ -137,7 +143,7 @@ func gBackend(t *rapid.T, l string, k backendKind) gw.HTTPBackendRef {
 	ref := gw.HTTPBackendRef{}
 	ref.Group, ref.Kind = ptr(gw.Group("")), ptr(gw.Kind("Service"))
 	ref.Port = ptr(gw.PortNumber(rapid.SampledFrom([]int{80, 8080}).Draw(t, l+"-port")))
-	ref.Weight = ptr(int32(rapid.SampledFrom([]int{0, 1, 1, 50, 50, 100, 100}).Draw(t, l+"-weight")))
+	ref.Weight = ptr(int32(rapid.SampledFrom([]int{0, 1, 1, 1, 50, 50, 100, 100, 100}).Draw(t, l+"-weight")))
 	switch k {
 	case bStable:
 		ref.Name = stableSvc
@@ -160,7 +166,7 @@ func gBackend(t *rapid.T, l string, k backendKind) gw.HTTPBackendRef {
 		ref.Name = stableSvc
 		ref.Namespace = ptr(gw.Namespace(otherNs))
 	}
-	if rapid.IntRange(0, 9).Draw(t, l+"-filter") == 0 {
+	if oneIn(t, l+"-filter", 10) {
 		ref.Filters = []gw.HTTPRouteFilter{{Type: gw.HTTPRouteFilterRequestHeaderModifier,
 			RequestHeaderModifier: &gw.HTTPHeaderFilter{Set: []gw.HTTPHeader{{Name: "x-backend", Value: "b"}}}}}
 	}
@@ -178,19 +184,23 @@ var (
 		{"S", []backendKind{bStable}}, {"S", []backendKind{bStable}}, {"S", []backendKind{bStable}}, {"S", []backendKind{bStable}},
 		{"S+F", []backendKind{bStable, bForeign}}, {"S+F", []backendKind{bStable, bForeign}}, {"S+F+F", []backendKind{bStable, bForeign, bForeign2}},
 		{"S+N", []backendKind{bStable, bNonService}},
-		{"S+C", []backendKind{bStable, bCanary}}, {"S+C+F", []backendKind{bStable, bCanary, bForeign}},
 		{"F", []backendKind{bForeign}}, {"F", []backendKind{bForeign2}}, {"F+F", []backendKind{bForeign, bForeign2}},
 		{"F+N", []backendKind{bForeign, bNonService}}, {"N", []backendKind{bNonService}},
-		{"C", []backendKind{bCanary}}, {"C+F", []backendKind{bCanary, bForeign}},
+		{"C", []backendKind{bCanary}},
 		{"Sx", []backendKind{bStableOtherNs}}, {"Sx+F", []backendKind{bStableOtherNs, bForeign}},
 		shapeNone, shapeNone, shapeNone,
+	}
+	// rules that carry a (leftover) canary ref next to other backends
+	mixedShapes = []shape{
+		{"S+C", []backendKind{bStable, bCanary}}, {"S+C", []backendKind{bStable, bCanary}}, {"S+C+F", []backendKind{bStable, bCanary, bForeign}},
+		{"C+F", []backendKind{bCanary, bForeign}},
 	}
 )
 
 func gFilters(t *rapid.T, l string, backendless bool) []gw.HTTPRouteFilter {
 	redirect := gw.HTTPRouteFilter{Type: gw.HTTPRouteFilterRequestRedirect,
 		RequestRedirect: &gw.HTTPRequestRedirectFilter{Scheme: ptr("https"), StatusCode: ptr(301)}}
-	if backendless && rapid.IntRange(0, 3).Draw(t, l+"-redirect") != 0 {
+	if backendless && !oneIn(t, l+"-noredirect", 4) {
 		return []gw.HTTPRouteFilter{redirect} // the usual reason for a rule without backends
 	}
 	cands := []gw.HTTPRouteFilter{
@@ -240,10 +250,23 @@ func maxRules() int {
 }
 
 func gRules(t *rapid.T, classes *[]string) []gw.HTTPRouteRule {
-	n := rapid.IntRange(1, maxRules()).Draw(t, "nrules")
+	sizes := []int{3, 2, 4, 2, 5, 3, 1, 4}
+	if vlib.Thorough() {
+		sizes = append(sizes, 6, 7, 8)
+	}
+	n := rapid.SampledFrom(sizes).Draw(t, "nrules")
 	var rules []gw.HTTPRouteRule
 	for i := 0; i < n; i++ {
 		sh := rapid.SampledFrom(shapes).Draw(t, fmt.Sprintf("r%d-shape", i))
+		// bias: the first rule targets stable, the second does not (the frame condition needs both)
+		if i < 2 && rapid.IntRange(0, 9).Draw(t, fmt.Sprintf("r%d-bias", i)) < 7 {
+			for tries := 0; tries < 8 && (sh.kinds != nil && sh.kinds[0] == bStable) != (i == 0); tries++ {
+				sh = rapid.SampledFrom(shapes).Draw(t, fmt.Sprintf("r%d-shape%d", i, tries))
+			}
+		}
+		if oneIn(t, fmt.Sprintf("r%d-mixed", i), 16) {
+			sh = rapid.SampledFrom(mixedShapes).Draw(t, fmt.Sprintf("r%d-mixedshape", i))
+		}
 		if open(sigForeignNs) && (sh.name == "Sx" || sh.name == "Sx+F") {
 			vlib.Excluded(currentCheck, sigForeignNs)
 			sh = shape{"F", []backendKind{bForeign2}}
@@ -251,6 +274,7 @@ func gRules(t *rapid.T, classes *[]string) []gw.HTTPRouteRule {
 		*classes = append(*classes, "rule-shape="+sh.name)
 		rules = append(rules, gRule(t, fmt.Sprintf("r%d", i), sh))
 	}
+	rules = rapid.Permutation(rules).Draw(t, "rule-order")
 	if err := validateRules(rules); err != nil {
 		panic("harness bug: generated route is not admitted by the gateway-api webhook: " + err.Error())
 	}
@@ -362,7 +386,7 @@ func maxSteps() int {
 }
 
 func gSteps(t *rapid.T, rules []gw.HTTPRouteRule, classes *[]string) []Step {
-	lens := []int{1, 2, 2, 3, 3, 4, 5}
+	lens := []int{2, 3, 2, 4, 3, 1, 5, 2}
 	if vlib.Thorough() {
 		lens = append(lens, 6, 7, 8)
 	}
@@ -378,10 +402,21 @@ func gSteps(t *rapid.T, rules []gw.HTTPRouteRule, classes *[]string) []Step {
 			anyStable = true
 		}
 	}
+	// most sequences follow the usual plan "matches first, then weights" (with deviations)
+	switchAt := 0
+	if n >= 2 && rapid.SampledFrom([]bool{true, true, true, false}).Draw(t, "switch-inner") {
+		switchAt = rapid.IntRange(1, n-1).Draw(t, "switch-at")
+	} else {
+		switchAt = rapid.SampledFrom([]int{n, 0}).Draw(t, "switch-end")
+	}
 	var steps []Step
 	for i := 0; i < n; i++ {
 		l := fmt.Sprintf("s%d", i)
-		kind := rapid.SampledFrom([]string{"w", "w", "w", "w", "m", "m", "m", "m", "m", "wm"}).Draw(t, l+"-kind")
+		kinds := []string{"m", "m", "m", "m", "m", "m", "wm", "w", "w"}
+		if i >= switchAt {
+			kinds = []string{"w", "w", "w", "w", "w", "w", "w", "m", "wm"}
+		}
+		kind := rapid.SampledFrom(kinds).Draw(t, l+"-kind")
 		if kind != "w" && mixed && open(sigMatchDropsCanaryRef) {
 			vlib.Excluded(currentCheck, sigMatchDropsCanaryRef)
 			kind = "w"
